@@ -218,6 +218,8 @@ def gen_cases(tier, rng, sh, out):
             loads = [{"fault": None, "name": "R"}] + [{"fault": k, "name": "R"} for k in range(n + 1)] + [{"fault": None}]
             # without name=: the open model of that name is renamed aside at the "_name" line and must get its name back
             loads += [{"fault": k} for k in range(n + 1)]
+            # the same failure points as a BaseException that is no Exception (KeyboardInterrupt), under the live name
+            loads += [{"fault": k, "fkind": "interrupt"} for k in range(n + 1)]
             cases.append({"model": kind, "saves": [sv(f)], "loads": loads, "final": None, "tag": "loads"})
             nmembers = 12
             dmg = [{"corrupt": {"what": w, "index": i}, "name": "R"} for i in range(nmembers) for w in ("delete", "truncate")]
